@@ -188,6 +188,19 @@ func readerMatrix(pj *simdjson.ParsedJson, want []*ref.Value, o readerOpts) (out
 			s := simdjson.NewSerializer()
 			blob := s.Serialize(nil, *pj)
 			var e error
+			// every other round trip lands in one recycled destination: it still holds the previous
+			// round trip, typically the same document one edit earlier (a member that is deleted now
+			// was a live container then), at the same tape offsets
+			readerSerCalls++
+			if walk.SharedDst && readerSerCalls%2 == 0 {
+				back, e = s.Deserialize(blob, readerSerDst)
+				if e == nil {
+					readerSerDst = back
+				} else {
+					readerSerDst = nil
+				}
+				return e
+			}
 			back, e = s.Deserialize(blob, nil)
 			return e
 		})
@@ -201,6 +214,11 @@ func readerMatrix(pj *simdjson.ParsedJson, want []*ref.Value, o readerOpts) (out
 	}
 	return
 }
+
+var (
+	readerSerDst   *simdjson.ParsedJson
+	readerSerCalls int
+)
 
 // lookupReader: for every object of the model (bounded), FindKey / FindPath of
 // each distinct key must give the first live member of that name.
